@@ -30,8 +30,10 @@ fn run_probes<A: Analysis<LV>>(eg: &mut EGraph<LV, A>, handles: &[AppliedId], pr
                                     match orig { Some(k) => sbool(eg.eq(x, &handles[k])), None => sym("na") }]),
                 None => sym("absent"),
             };
+            // the invocations exactly as returned (no find): how many slot arguments they carry
+            let raw = lst(vec![sym("raw"), num(a.m.len() as u64), match &lk { Some(x) => num(x.m.len() as u64), None => sym("na") }]);
             lst(vec![sym("p"), lk_sx, sbool(pure), num((c1 - c0) as u64), num((n1 as i64 - n0 as i64).unsigned_abs()),
-                     slots_sx(&eg.find_applied_id(&a)), match orig { Some(k) => sbool(eg.eq(&a, &handles[k])), None => sym("na") }])
+                     slots_sx(&eg.find_applied_id(&a)), match orig { Some(k) => sbool(eg.eq(&a, &handles[k])), None => sym("na") }, raw])
         }));
         match o {
             Ok(x) => v.push(x),
